@@ -301,6 +301,7 @@ struct MtRun {
     };
     struct BlockedIv { int t_reg, resolver_begin; };
     std::vector<std::vector<BlockedIv>> blocked_iv;     // per producer
+    std::vector<std::vector<BlockedIv>> waiting_iv;     // per consumer (unbounded queue): pops that had to wait, watched the same way
     struct UnblockCall { int tb, te; bool r; };
     std::vector<UnblockCall> unblock_calls;
 
@@ -309,6 +310,7 @@ struct MtRun {
         for (int k = 0; k < x.count; k++) {
             hz::upoints(x.yields);
             PushRec rec{i * 1000 + k, hz::tick(), 0};
+            cur_op_begin() = rec.t_begin;
             if constexpr (BOUNDED) {
                 bool failed = false;
                 try { co_await q->push(rec.v); } catch (const val::TestExc &) { failed = true; }
@@ -335,7 +337,7 @@ struct MtRun {
                 }
                 try { f.value(); } catch (const val::TestExc &) { push_exc_seen[(size_t)i]++; k--; continue; }
             }
-            else q->push(rec.v);
+            else { cur_op_begin() = hz::tick(); q->push(rec.v); }
             rec.t_end = hz::tick();
             pushed[(size_t)i].push_back(rec);
         }
@@ -350,19 +352,30 @@ struct MtRun {
             if (ok) got[(size_t)i].push_back(v); else k--;      // pop failed by unblock_pop: try again
         }
     }
-    void cons_thread(int i) {
+    void cons_thread(int i) { cons_thread_body(i); hz::slot_add(20, 1); }
+    void cons_thread_body(int i) {
         const Party &x = p->cons[(size_t)i];
         if (x.flavour == 0) { cocls::future<void> f = cons_coro(i).start(); f.wait(); return; }
         for (int k = 0; k < x.count; k++) {
             hz::upoints(x.yields);
             cur_op_begin() = hz::tick();
-            try { int v = q->pop().wait(); got[(size_t)i].push_back(v); } catch (const val::TestExc &) { exc_seen[(size_t)i]++; k--; }
+            if constexpr (!BOUNDED) {
+                // a pop that has to wait is watched by a hand-written awaiter (see WaitAw)
+                cocls::future<int> f = q->pop();
+                if (!f.ready()) {
+                    WaitAw aw; int t_reg = hz::tick();
+                    if (f.operator co_await().subscribe(&aw)) { hz::slot_add(19, 1); while (!aw.fired.load(std::memory_order_acquire)) vrt::yield(); hz::slot_add(19, -1); waiting_iv[(size_t)i].push_back({t_reg, aw.resolver_begin}); }
+                }
+                try { int v = f.value(); got[(size_t)i].push_back(v); } catch (const val::TestExc &) { exc_seen[(size_t)i]++; k--; }
+            } else {
+                try { int v = q->pop().wait(); got[(size_t)i].push_back(v); } catch (const val::TestExc &) { exc_seen[(size_t)i]++; k--; }
+            }
         }
     }
     void run(const MtProg &prog) {
         p = &prog;
         if constexpr (BOUNDED) q.reset(new Q(prog.limit)); else q.reset(new Q());
-        got.resize(prog.cons.size()); pushed.resize(prog.prod.size()); exc_seen.assign(prog.cons.size(), 0); push_exc_seen.assign(prog.prod.size(), 0); blocked_iv.resize(prog.prod.size());
+        got.resize(prog.cons.size()); pushed.resize(prog.prod.size()); exc_seen.assign(prog.cons.size(), 0); push_exc_seen.assign(prog.prod.size(), 0); blocked_iv.resize(prog.prod.size()); waiting_iv.resize(prog.cons.size());
         std::vector<std::thread> th;
         if constexpr (BOUNDED) if (prog.unblocks) th.emplace_back([this, &prog] {
             for (unsigned k = 0; k < prog.unblocks; k++) { hz::upoints(1 + k);
@@ -371,7 +384,12 @@ struct MtRun {
                 int tb = hz::tick(); cur_op_begin() = tb; bool r = q->unblock_push(std::make_exception_ptr(val::TestExc(9))); unblock_calls.push_back({tb, hz::tick(), r}); if (r) unblock_true++; }
         });
         if constexpr (!BOUNDED) if (prog.unblocks) th.emplace_back([this, &prog] {
-            for (unsigned k = 0; k < prog.unblocks; k++) { hz::upoints(1 + k); bool r = q->unblock_pop(std::make_exception_ptr(val::TestExc(9))); if (r) unblock_true++; }
+            for (unsigned k = 0; k < prog.unblocks; k++) {
+                hz::upoints(1 + k);
+                // (the last call waits until some watched pop is waiting - or every consumer is done - so that it has a target)
+                if (k + 1 == prog.unblocks) while (hz::slot_get(19) == 0 && hz::slot_get(20) < (long)prog.cons.size()) vrt::yield();
+                int tb = hz::tick(); cur_op_begin() = tb; bool r = q->unblock_pop(std::make_exception_ptr(val::TestExc(9))); unblock_calls.push_back({tb, hz::tick(), r}); if (r) unblock_true++;
+            }
         });
         if (prog.monitor) th.emplace_back([this] {
             for (int k = 0; k < 3; k++) { hz::upoint(); std::size_t n = q->size(); bool e = q->empty(); hz::slot_add(13, (long)n + (e ? 1 : 0)); }     // (what it reads is not judged: another thread may act in between)
@@ -408,6 +426,8 @@ struct MtRun {
         // completed by an operation that began after the call had returned was blocked throughout the call
         if constexpr (BOUNDED) for (auto &u : unblock_calls) if (!u.r) for (auto &v : blocked_iv) for (auto &b : v)
             HZ_CHECK(!(b.t_reg < u.tb && b.resolver_begin > u.te), "unblock_push (t=%d..%d) reported that no push was blocked although a push was blocked from t=%d until an operation that began at t=%d completed it", u.tb, u.te, b.t_reg, b.resolver_begin);
+        if constexpr (!BOUNDED) for (auto &u : unblock_calls) if (!u.r) for (auto &v : waiting_iv) for (auto &b : v)
+            HZ_CHECK(!(b.t_reg < u.tb && b.resolver_begin > u.te), "unblock_pop (t=%d..%d) reported that no pop was waiting although a pop waited from t=%d until an operation that began at t=%d completed it", u.tb, u.te, b.t_reg, b.resolver_begin);
         int exc_total = 0; for (int e : exc_seen) exc_total += e;
         if constexpr (!BOUNDED) HZ_CHECK(exc_total == unblock_true, "unblock_pop reported success %d times but %d pops failed with its exception (exactly the oldest waiting pop must fail)", unblock_true, exc_total);
         HZ_CHECK(q->empty() && q->size() == 0, "queue not empty after every item was consumed (size %zu)", q->size());
